@@ -430,6 +430,13 @@ class TCPClient(_TCPPooling, interfaces.TokenInterface):
             # shut down while connecting (the connection has seen to itself)
             raise error.LibraryShutdown()
 
+        if (host, port) in self._pool:
+            # A concurrent request has established a connection in the
+            # meantime. Only pooled connections are released at shutdown, so
+            # this one must not be kept around next to it.
+            protocol._transport.close()
+            return self._pool[(host, port)]
+
         self._pool[(host, port)] = protocol
 
         return protocol
